@@ -411,6 +411,15 @@ for every parent (the quantiles are clamped into the domain), judged uncondition
 def boundsInDom (s : DD α) : Bool :=
   Scalar.leb s.dom.lo s.dom.hi && s.bounds.all (fun b => Scalar.leb s.dom.lo b && Scalar.leb b s.dom.hi)
 
+/-- clause value_in_domain: every class value lies in the (closed) domain -/
+def valuesInDom (s : DD α) : Bool :=
+  s.cats.all (fun v => Scalar.leb s.dom.lo v && Scalar.leb v s.dom.hi)
+
+/-- the domain is narrower than four separation steps per class: `n` keys that the map tells apart
+hardly fit into it -/
+def narrowDom (s : DD α) : Bool :=
+  !(Scalar.gtb (s.dom.hi - s.dom.lo) (Scalar.ofInt 4 * nat s.n * sepStep s.prec s.dom.hi))
+
 /-- clause values_strict_mono -/
 def valuesStrictMono (s : DD α) : Bool := strictIncr s.cats
 
